@@ -71,9 +71,10 @@ pub fn run(ctx: Ctx) -> ! {
         }
     }
     found.flush(&ctx);
-    let mut cov = sum.coverage(
-        "TxLab base B3 (two Plutus-locked inputs, two redeemers) of Alonzo, Babbage, Conway with every single deviation and pair; budgets: sum(mem) and sum(steps) in {max-1, max, max+1, 2^64-1} plus each = 2^63, list form and (Conway) map form; the oracle runs on every ACCEPTED case that carries Plutus scripts; non-trivial = decoded, distinct by Blake2b of (tx, UTxO, environment)",
-    );
+    let mut cov = sum.coverage(&format!(
+        "TxLab base B3 (two Plutus-locked inputs, two redeemers) of Alonzo, Babbage, Conway with every single deviation and pair of deviations of different dimensions ({}); budgets: sum(mem) and sum(steps) in {{max-1, max, max+1, 2^64-1}} plus every redeemer = 2^63, list form and (Conway) map form; the oracle runs on every ACCEPTED case that carries Plutus scripts; non-trivial = decoded, distinct by Blake2b of (tx, UTxO, environment)",
+        bounds.describe()
+    ));
     cov.insert(
         "per_era_and_encoding".into(),
         json!(s.iter().map(|((e, f), x)| json!({"era": e, "redeemers": f, "accepted_with_plutus": x[0], "explored_sum_mem_over_max": x[1], "explored_sum_steps_over_max": x[2], "accepted_at_exactly_max": x[3]})).collect::<Vec<_>>()),
